@@ -148,7 +148,22 @@ def build(prop, targets):
                     broken.append(item)
             if not broken:
                 raise RuntimeError("lake build failed without a located error:\n" + log[-3000:])
-        return rc == 0, broken, log, gen
+        # a fragment / scenario the translators could not regenerate from the current source is a broken tie for every
+        # property whose theorems mention it (the theorem then talks about the baseline text, or is vacuous)
+        text = ""
+        for t in targets:
+            fp = os.path.join(LEAN, t.replace(".", "/") + ".lean")
+            if os.path.exists(fp):
+                text += open(fp).read()
+        stale = []
+        for kind, rep in gen.items():
+            for name, status in (rep or {}).items():
+                if isinstance(status, str) and status.startswith("NOT regenerated"):
+                    frag = name.split(":")[-1]
+                    if re.search(r"\bGen\." + re.escape(frag) + r"\b", text):
+                        stale.append(f"translator({kind}):{frag}: {status[:160]}")
+        broken += stale
+        return rc == 0 and not stale, broken, log, gen
     finally:
         fcntl.flock(lock, fcntl.LOCK_UN)
         lock.close()
@@ -197,6 +212,9 @@ def audit(prop, files):
     return names, checked, problems
 
 
+LEANCHECKER = {"ran": False}
+
+
 def load_findings():
     p = os.path.join(VERIF, "known_findings.json")
     if os.path.exists(p):
@@ -220,6 +238,12 @@ def main():
         targets = [f[:-5].replace("/", ".") for f in files]
         ok, broken, log, gen = (True, [], "", {}) if a.no_build else build(prop, targets)
         names, checked, problems = audit(prop, files) if ok else (sum((theorem_names(os.path.join(LEAN, f)) for f in files), []), 0, [])
+        if ok and tier == "thorough" and not a.no_build:
+            # independent re-check of the compiled property modules (and everything they import) by leanchecker
+            rc, out = sh(["lake", "env", "leanchecker"] + targets, cwd=LEAN, timeout=3000)
+            if rc != 0:
+                problems.append("leanchecker rejected the compiled modules: " + out[-500:])
+            LEANCHECKER["ran"] = True
         ctx = Ctx(prop, tier if ok else "thorough", seed)   # a broken obligation triggers the deep search
         ctx.requested_tier = tier
         try:
@@ -293,7 +317,7 @@ def main():
             "rule": getattr(mod, "RULE", ""), "samples": ctx.samples or ["(none)"],
             "distribution": ctx.dist, "exhaustive": ctx.exhaustive,
             "correspondence_disagreements": len(ctx.disagreements), "known_findings_exhibited": sorted(known_hit),
-            "notes": ctx.notes + list(getattr(mod, "NOTES", [])),
+            "notes": ctx.notes + list(getattr(mod, "NOTES", [])) + (["compiled modules re-checked by leanchecker"] if LEANCHECKER["ran"] else []),
         },
         "assumptions": list(getattr(mod, "ASSUMPTIONS", [])) + ["see trusted_base"],
         "wall_s": round(time.time() - t0, 2), "violations": nviol,
